@@ -430,8 +430,12 @@ call sequences; half that share in the value tables) whose definition is a minim
 them (it is the one a user writes on purpose)."""
 
 
-def rand_minimal(rng):
-    return '' if rng.random() < 0.5 else rng.choice(MINIMAL_ALL)
+def rand_minimal(rng, raw_only=False):
+    """raw_only: for the value tables, whose property snippets are judged by the value oracle (it reads `name:values`)"""
+    while True:
+        b = '' if rng.random() < 0.5 else rng.choice(MINIMAL_ALL)
+        if not raw_only or classify(b)[0] == 'raw':
+            return b
 
 
 def rand_snip(rng):
@@ -772,7 +776,7 @@ def run(ctx):
         'letter / a dash (a property without values), a single tabstop and nothing else, a name with its colon and no value (`a:`, '
         '`x: `, `x:;`), a lone line break -- 32 definitions in 7 classes (buckets c06:minimal-definition:*).  10%% of the user '
         'snippets of every stream that draws them (random user tables, global-config layers, config shapes, call sequences; 5%% in '
-        'the value tables) are minimal, half of those the empty string.  Dedicated stream (minimal_stream): per syntax 2 (quick) / 6 '
+        'the value tables, raw ones only) are minimal, half of those the empty string.  Dedicated stream (minimal_stream): per syntax 2 (quick) / 6 '
         '(thorough) tables that hold EVERY minimal definition once, definition i of table j under a key of class (i+j) mod 3 of '
         '{overriding a built-in key, new key next to built-in keys (proper prefix of one / a letter repeated / a letter appended), '
         'unrelated new key}, scopes none + one other in rotation (quick) / all four (thorough), callbacks alternating: every user key '
@@ -858,7 +862,7 @@ def rand_value_table(rng, base, size=None):
         lows.add(k.lower())
         r = rng.random()
         if rng.random() < P_MINIMAL / 2:
-            t[k] = rand_minimal(rng)          # the empty definition, blanks only, one character, a single tabstop, `a:`
+            t[k] = rand_minimal(rng, raw_only=True)          # the empty definition, blanks only, one character, a single tabstop, `a:`
         elif r < 0.1:
             t[k] = rng.choice(vg.RAW_BODIES)
         elif r < 0.2:
